@@ -105,6 +105,14 @@ let () =
         | [_; len; x] -> (match binary_search (List.map num (words l)) (num x) (num len) with
             | Some true -> print_endline "BS 1" | Some false -> print_endline "BS 0" | None -> print_endline "BS LOOP")
         | _ -> print_endline "ERR")
+     | hdr :: rest when String.length hdr >= 2 && String.sub hdr 0 2 = "DS" ->
+       (* DS me result | q0 | q1 ... : sequential qdqueue acceptor (Dq.seq_deq_ok); result 0 = NULL *)
+       (match words hdr with
+        | [_; me; r] ->
+          let qs = List.map (fun w -> List.map num (words w)) rest in
+          let r = int_of_string r in
+          Printf.printf "DS %d\n" (if seq_deq_ok qs (nat_of_int (int_of_string me)) (if r = 0 then None else Some (n_of_int r)) then 1 else 0)
+        | _ -> print_endline "ERR")
      | hdr :: rest when String.length hdr >= 2 && String.sub hdr 0 2 = "HS" ->
        (match words hdr, List.rev rest with
         | [_; me], fl :: slots_rev ->
